@@ -4,12 +4,15 @@ import ProductMD.Driver.OpsTreeInfo
 import ProductMD.Model.ComposeInfoLegacy
 import ProductMD.Model.ImagesLegacy
 import ProductMD.Model.TreeInfoLegacy
+import ProductMD.Model.RpmsLegacy
+import ProductMD.Driver.OpsBuilders
 /-!
 driver ops of C05: load a document of ANY format version through the legacy-aware readers
 (`Model/*Legacy.lean`), write it with the current writer, load what was written, write again.
 
 * `c05_ci_cycle`  `{"doc": <parsed composeinfo JSON>}`
 * `c05_img_cycle` `{"doc": <parsed images JSON>}`
+* `c05_rpms_cycle` `{"doc": <parsed rpms JSON>}`
 * `c05_ti_cycle`  `{"text": <.treeinfo text>, "floats": {text: {"int": n | "int_err": cls}}}`
 
 Answers: `{"load": {"ok": snapshot} | {"err": cls}, "dump": {"ok": text}, "reload": .., "dump2": ..}` (later keys only
@@ -88,9 +91,29 @@ def tiCycle (fo : FloatOracle) (text : Str) : Json :=
                        | .error e => errJson e)]
 end
 
+/-! ### rpms -/
+section
+open PM.Mf PM.Driver.OpsBuilders
+
+def rpmsCycle (doc : PyVal) : Json :=
+  match deserializeL .rpms doc with
+  | .error e => Json.mkObj [("load", errJson e)]
+  | .ok m =>
+    match dumpDoc .rpms m with
+    | (_, .error e) => Json.mkObj [("load", jok (manifestJson m)), ("dump", errJson e)]
+    | (_, .ok d1) =>
+      let t1 := JsonText.dumps d1
+      match deserializeL .rpms (reparse d1) with
+      | .error e => Json.mkObj [("load", jok (manifestJson m)), ("dump", jok (jstr t1)), ("reload", errJson e)]
+      | .ok m2 =>
+        Json.mkObj [("load", jok (manifestJson m)), ("dump", jok (jstr t1)), ("reload", jok (manifestJson m2)),
+                    ("dump2", match (dumps .rpms m2).2 with | .ok t2 => jok (jstr t2) | .error e => errJson e)]
+end
+
 def ops : List (String × (Json → Json)) :=
   [("c05_ci_cycle", fun a => OpsComposeInfo.wire (ciCycle (toPy (get a "doc")))),
    ("c05_img_cycle", fun a => imgCycle (toPy (get a "doc"))),
+   ("c05_rpms_cycle", fun a => rpmsCycle (toPy (get a "doc"))),
    ("c05_ti_cycle", fun a => tiCycle (OpsTreeInfo.oracleOf (get a "floats")) (getStrD a "text"))]
 
 end PM.Driver.OpsC05
